@@ -49,7 +49,10 @@ class Sem:
     """Semantics switch.  The default is the property; the others are *wrong* semantics
     used only to name the mechanism of an observed mismatch."""
 
-    def __init__(self, select: str = "most", sup: str = "next", standalone: str = "own") -> None:
+    def __init__(self, select: str = "most", sup: str = "next", standalone: str = "own",
+                 super_reescape: bool = False) -> None:
+        # (wrong) auto-escape reading: the text produced by block.super is escaped again
+        self.super_reescape = super_reescape
         self.select = select  # most | least
         self.sup = sup  # next | base | none
         # An `include`d template that has blocks but no `extends`, rendered while a chain
@@ -148,10 +151,15 @@ class _Entry:
 
 
 class Ref:
-    def __init__(self, prog: Program, data: dict, sem: Sem | None = None) -> None:
+    def __init__(self, prog: Program, data: dict, sem: Sem | None = None,
+                 escape: bool = False) -> None:
         self.prog = prog
         self.data = data
         self.sem = sem or Sem()
+        # auto-escape: literal template text is output verbatim, a value coming from a
+        # variable is HTML-escaped exactly once, however many block.super levels the
+        # text passes through afterwards
+        self.escape = escape
         self.o = Outcome()
         self.budget = 200_000
 
@@ -240,7 +248,8 @@ class Ref:
                 out.append(it[1])
             elif k == "v":
                 self.o.stats["var_reads"] += 1
-                out.append(self._str(self._lookup(scope, it[1])))
+                txt = self._str(self._lookup(scope, it[1]))
+                out.append(html_escape(txt) if self.escape else txt)
             elif k == "s":
                 self._super(e, cur, scope, out)
             elif k == "b":
@@ -320,6 +329,11 @@ class Ref:
             nxt = len(lst) - 1
         self.o.stats["supers"] += 1
         tname, body, _req = lst[nxt]
+        if self.escape and self.sem.super_reescape:
+            sub: list[str] = []
+            self._enter(body, e, (name, nxt), tname, scope, sub)
+            out.append(html_escape("".join(sub)))
+            return
         self._enter(body, e, (name, nxt), tname, scope, out)
 
     def _include(self, it, e, scope, out) -> None:  # noqa: ANN001
@@ -339,8 +353,42 @@ class Ref:
             self.render_entry(target, [self.data, {}, frame], out)
 
 
-def expected(prog: Program, entry: str, data: dict, sem: Sem | None = None) -> Outcome:
-    r = Ref(prog, data, sem)
+def html_escape(s: str) -> str:
+    return (s.replace("&", "&amp;").replace("<", "&lt;").replace(">", "&gt;")
+            .replace("'", "&#39;").replace('"', "&#34;"))
+
+
+def rename(prog: Program, entry: str, data: dict, mapping: dict[str, str]) -> tuple[Program, str, dict]:
+    """The same program with its templates renamed (extends / include targets and lists
+    of template names in the data follow).  A chain is identified by FULL names."""
+
+    def items_(items: list) -> list:
+        out = []
+        for it in items:
+            it = list(it)
+            k = it[0]
+            if k == "x":
+                it[1] = mapping.get(it[1], it[1])
+            elif k == "inc" and not it[2].startswith("@"):
+                it[2] = mapping.get(it[2], it[2])
+            elif k in ("b", "for", "forin"):
+                it[3] = items_(it[3])
+            elif k == "if":
+                it[2] = items_(it[2])
+            out.append(it)
+        return out
+
+    p2 = {mapping.get(n, n): items_(items) for n, items in prog.items()}
+    d2 = {
+        k: ([mapping.get(x, x) if isinstance(x, str) else x for x in v] if isinstance(v, list) else v)
+        for k, v in data.items()
+    }
+    return p2, mapping.get(entry, entry), d2
+
+
+def expected(prog: Program, entry: str, data: dict, sem: Sem | None = None,
+             escape: bool = False) -> Outcome:
+    r = Ref(prog, data, sem, escape)
     out: list[str] = []
     try:
         r.render_entry(entry, [data, {}], out)
